@@ -172,7 +172,7 @@ def run(ctx):
         o = tg.Opts(nflows=rng.choice([1, 1, 2, 3, 4]), steps=rng.randrange(20, 90),
                     latency=rng.random() < 0.4, bufsize=rng.choice([1, 100, 2048, 32768, 1000000]),
                     big=(k % 10 == 0), foreign=rng.random() < 0.3,
-                    maxchan=rng.choice([65535, 65535, 5]), chani=rng.choice([0, 0, 65533]))
+                    maxchan=rng.choice([65535, 65535, 5]), chani=rng.choice([0, 0, 65533]), epipe=(k % 4 == 1))
         if o.maxchan == 5:
             o.chani = rng.randrange(0, 6)
         ins, outs, nontrivial = scenario(ctx, rng, o)
